@@ -643,13 +643,16 @@ class DefaultCodec(Codec):
                     parent_index = pickle_partition_parent._index
                     # noinspection PyProtectedMember
                     parent_data_source = pickle_partition_parent._data_source
-                elif hasattr(merge_parent, "_output_keys") and hasattr(
-                    merge_parent, "_data_source"
+                elif (
+                    getattr(merge_parent, "_output_keys", None) is not None
+                    and getattr(merge_parent, "_parent_data_source", None) is not None
                 ):
+                    # A partition built in this process that has already been stored (e.g.
+                    # returned by a memento function, or served from the memory cache)
                     # noinspection PyProtectedMember
                     parent_index = merge_parent._output_keys
                     # noinspection PyProtectedMember
-                    parent_data_source = merge_parent._data_source
+                    parent_data_source = merge_parent._parent_data_source
                 else:
                     raise IOError(
                         "Could not merge partitions: parent is not "
@@ -694,11 +697,13 @@ class DefaultCodec(Codec):
                 output_keys[k] = index_entry
                 index[k] = index_entry
 
-            # If this is an InMemoryPartition, remember the output keys so they can be
-            # referred to when merging partitions in the future
-            if hasattr(obj, "_output_keys") and hasattr(obj, "_data_source"):
-                obj._output_keys = output_keys
-                obj._data_source = data_source
+            # If this is an InMemoryPartition or OnDiskPartition, remember where every key of
+            # the stored (merged) partition was written, so that the object can serve as the
+            # parent of a merged partition in the future. The staging data source of an
+            # OnDiskPartition is left alone: the object must stay readable.
+            if hasattr(obj, "_output_keys") and hasattr(obj, "_parent_data_source"):
+                obj._output_keys = dict(index)
+                obj._parent_data_source = data_source
 
             # noinspection PyProtectedMember
             obj._index_bytes = DefaultCodec.PicklePartition._serialize_index(index)
